@@ -122,7 +122,8 @@ def _r1(repo, L, m, ba):
     for p in PathEnum((0, 1), exc_edges=False).block(inner.body):
         adds = [i for i, c in path_calls(p, lambda c: _mcall("add_scaffold", "self")(c) and c.args and is_name(c.args[0], res))]
         recs = [i for i, c in path_calls(p, lambda c: _mcall(store.name, "self")(c) and c.args and is_name(c.args[0], res))]
-        trims = [i for i, c in path_calls(p, lambda c: isinstance(c.func, ast.Attribute) and is_name(c.func.value, res) and c.func.attr in ("trim_large_overhangs", "discard_start", "discard_end"))]
+        mutating = {n for n, f2 in repo.cls("OverlapResult").methods.items() if not f2.is_property and any(isinstance(x, ast.Call) and isinstance(x.func, ast.Attribute) and (norm(x.func.value) == "self.rows" and x.func.attr == "pop" or (is_name(x.func.value, "self") and x.func.attr.startswith(("discard", "trim")))) for x in walk_shallow(f2.node))}
+        trims = [i for i, c in path_calls(p, lambda c: isinstance(c.func, ast.Attribute) and is_name(c.func.value, res) and c.func.attr in mutating)]
         if len(adds) != len(recs) or len(adds) > 1:
             ok, why = False, f"a path keeps the lookup result {len(adds)} time(s) but records its contigs {len(recs)} time(s): contigs of a kept-but-unrecorded result are re-added as left-overs (duplicated); recorded-but-dropped ones are lost"
         if adds:
@@ -216,25 +217,38 @@ def _r2(repo, L, m, ba, ovr):
     for name, f in ovr.methods.items():
         if any(_mcall("pop", "self.rows")(c) for c in repo.calls_in(f)) or any(isinstance(n, ast.Delete) and "self.rows" in norm(n) for n in walk_shallow(f.node)):
             removers[name] = f
-    L.floor("R2", "row-removing methods of OverlapResult", len(removers), 2)
+    L.floor("R2", "row-removing methods of OverlapResult", len(removers), 1)
     fa = m["find_assembly_overlaps"]
+    # removal API = direct removers plus every OverlapResult method that (transitively) calls one on self
+    api = dict(removers)
+    grew = True
+    while grew:
+        grew = False
+        for name, f in ovr.methods.items():
+            if name in api:
+                continue
+            if any(isinstance(c.func, ast.Attribute) and is_name(c.func.value, "self") and c.func.attr in api for c in repo.calls_in(f)):
+                api[name] = f
+                grew = True
     n_sites = 0
-    for rname, rf in sorted(removers.items()):
-        for caller, call in repo.callers_of(rf):
-            if not (isinstance(call.func, ast.Attribute) and call.func.attr == rname):
+    for f in repo.functions.values():
+        if f.cls is ovr:
+            continue  # calls inside the API are part of it
+        for call in repo.calls_in(f):
+            if not (isinstance(call.func, ast.Attribute) and call.func.attr in api):
+                continue
+            targets, _, _ = repo.resolve_call(call, f)
+            if targets and not any(t is api[call.func.attr] for t in targets):
                 continue
             n_sites += 1
-            inst = f"{caller.short} -> {rname}"
-            if caller.cls is ovr:
-                # (i) internal: the caller itself must only be used before recording (checked in R1)
-                ext = [(g, c) for g, c in repo.callers_of(caller) if isinstance(c.func, ast.Attribute) and c.func.attr == caller.name]
-                okc = all(g is fa for g, c in ext) and bool(ext)
-                L.check(okc, "R2", inst, f"{caller.name} is only called on a fresh lookup result (before recording, R1)", f"{caller.short} (which removes rows) is called from {[g.short for g, c in ext]}: rows can be removed from a recorded result without another owner", caller.loc(call))
-            elif caller.name == "apply" and caller.cls is not None and "Premise" in caller.cls.name:
-                L.ok("R2", inst, "removal through a premise (guarded at its call sites)", caller.loc(call))
+            inst = f"{f.short} -> {call.func.attr}"
+            if f is fa:
+                L.ok("R2", inst, "row removal on a fresh lookup result (ordering before recording is R1)", f.loc(call))
+            elif f.name == "apply" and f.cls is not None and "Premise" in f.cls.name:
+                L.ok("R2", inst, "removal through a premise (guarded at its call sites)", f.loc(call))
             else:
-                L.fail("R2", inst, f"row removal {rname}() is called from {caller.short}, outside the trim-before-record and premise paths: a contig can be dropped from its only owner", caller.loc(call))
-    L.floor("R2", "remover call sites", n_sites, 4)
+                L.fail("R2", inst, f"row removal {call.func.attr}() is called from {f.short}, outside the trim-before-record and premise paths: a contig can be dropped from its only owner", f.loc(call))
+    L.floor("R2", "external call sites of the row-removal API", n_sites, 3)
     # (ii) apply() sites
     n_apply = 0
     for f in repo.functions.values():
